@@ -1,6 +1,669 @@
 import AriVerif.Wire
+import AriVerif.Requests
+import AriVerif.Spec.Ari
 import AriVerif.Lemmas.Codec
+import AriVerif.Props.C05
 /-! helper lemmas about splitBarL / joinBarL / rstripL / pyInt? / read (shared by C06, C07, C09) -/
 namespace Ari
+
+/-! ## `Except` plumbing -/
+
+theorem R.bind_ok {α β} (a : α) (f : α → R β) : (Except.ok a >>= f) = f a := rfl
+theorem R.bind_error {α β} (f : α → R β) : ((Except.error () : R α) >>= f) = .error () := rfl
+
+theorem R.eq_error_or {α} (x : R α) : x = .error () ∨ ∃ a, x = .ok a := by
+  cases x with
+  | error e => left; rfl
+  | ok a => right; exact ⟨a, rfl⟩
+
+/-! ## `read` -/
+
+theorem read_error_of_marker (toks : List String) (c : Char) (i : Nat)
+    (h : toks[i]? ≠ some (String.singleton c)) : read toks c i = .error () := by
+  unfold read readToken
+  cases ht : toks[i]? with
+  | none => rfl
+  | some t =>
+    have hne : t ≠ String.singleton c := by intro e; apply h; rw [ht, e]
+    simp only [R.bind_ok, if_neg hne]
+
+theorem read_error_of_short (toks : List String) (c : Char) (i : Nat)
+    (h : toks.length < i + 2) : read toks c i = .error () := by
+  unfold read readToken
+  cases ht : toks[i]? with
+  | none => rfl
+  | some t =>
+    have h1 : toks[i + 1]? = none := by
+      rw [List.getElem?_eq_none_iff]; omega
+    simp only [R.bind_ok, h1]
+    split <;> rfl
+
+theorem read_I_error (toks : List String) (i : Nat) (t : String)
+    (ht : toks[i + 1]? = some t) (h : pyInt? t = none) : read toks 'I' i = .error () := by
+  unfold read readToken
+  cases h0 : toks[i]? with
+  | none => rfl
+  | some t0 =>
+    simp only [R.bind_ok, ht]
+    split
+    · simp [h]
+    · rfl
+
+theorem read_M_error (toks : List String) (i : Nat) (t : String)
+    (ht : toks[i + 1]? = some t) (h : decodeModes t = .error ()) : read toks 'M' i = .error () := by
+  unfold read readToken
+  cases h0 : toks[i]? with
+  | none => rfl
+  | some t0 =>
+    simp only [R.bind_ok, ht]
+    split
+    · simp [h, Except.map]
+    · rfl
+
+theorem read_P_error (toks : List String) (i : Nat) (t : String)
+    (ht : toks[i + 1]? = some t) (h : decodePlat t = .error ()) : read toks 'P' i = .error () := by
+  unfold read readToken
+  cases h0 : toks[i]? with
+  | none => rfl
+  | some t0 =>
+    simp only [R.bind_ok, ht]
+    split
+    · simp [h, Except.map]
+    · rfl
+
+/-- an error at any fixed field makes `decodeFixed` fail. -/
+theorem decodeFixed_error (toks : List String) (tys : List Ty) (off i : Nat) (ty : Ty)
+    (hi : tys[i]? = some ty) (h : read toks ty.marker (off + 2 * i) = .error ()) :
+    decodeFixed toks tys off = .error () := by
+  induction tys generalizing off i with
+  | nil => simp at hi
+  | cons ty0 tys ih =>
+    unfold decodeFixed
+    cases i with
+    | zero =>
+      simp at hi; subst hi
+      simp at h
+      rw [h]; rfl
+    | succ i =>
+      simp at hi
+      have := ih (off + 2) i hi (by rw [← h]; congr 1; omega)
+      rw [this]
+      rcases R.eq_error_or (read toks ty0.marker off) with h1 | ⟨a, h1⟩ <;> rw [h1] <;> rfl
+
+theorem decodeFixed_short (toks : List String) (tys : List Ty) (off : Nat) (hne : tys ≠ [])
+    (h : toks.length < off + 2 * tys.length) : decodeFixed toks tys off = .error () := by
+  have hlen : 0 < tys.length := List.length_pos_iff.mpr hne
+  have hi : tys[tys.length - 1]? = some (tys[tys.length - 1]'(by omega)) := by
+    rw [List.getElem?_eq_getElem]
+  exact decodeFixed_error toks tys off _ _ hi (read_error_of_short _ _ _ (by omega))
+
+theorem decodeWith_error_of_fixed (σ : Schema) (toks : List String)
+    (h : decodeFixed toks σ.fixed 0 = .error ()) : decodeWith σ toks = .error () := by
+  unfold decodeWith
+  rw [h]; rfl
+
+theorem readSeqL_odd (data : List String) (h : data.length % 2 = 1) : readSeqL data = .error () := by
+  fun_induction readSeqL data with
+  | case1 => simp at h
+  | case2 t => rw [read_error_of_short _ _ _ (by simp)]; rfl
+  | case3 a b rest ih =>
+    have := ih (by simp at h; omega)
+    rw [this]
+    rcases R.eq_error_or (read (a :: b :: rest) 'S' 0) with h1 | ⟨a, h1⟩ <;> rw [h1] <;> rfl
+
+theorem decodeTables_partial (fuel : Nat) (data : List String) (h : data.length % 14 ≠ 0) :
+    decodeTables fuel data = .error () := by
+  induction fuel generalizing data with
+  | zero =>
+    cases data with
+    | nil => simp at h
+    | cons a b => rfl
+  | succ fuel ih =>
+    cases data with
+    | nil => simp at h
+    | cons a b =>
+      unfold decodeTables
+      by_cases hl : (a :: b).length < 14
+      · rw [decodeFixed_short _ _ _ (by decide) (by simp [tableTys]; simp at hl; omega)]; rfl
+      · rw [ih _ (by simp only [List.length_drop, List.length_cons] at hl h ⊢; omega)]
+        rcases R.eq_error_or (decodeFixed (List.take 14 (a :: b)) tableTys 0) with h1 | ⟨a, h1⟩ <;> rw [h1] <;> rfl
+
+/-! ## `rstripL` -/
+
+theorem rstripL_spaces (l : List Char) (h : ∀ c ∈ l, isSpace c = true) : rstripL l = [] := by
+  induction l with
+  | nil => rfl
+  | cons c cs ih =>
+    simp only [rstripL, ih (fun c hc => h c (List.mem_cons_of_mem _ hc)), h c (List.mem_cons_self ..), if_true]
+
+theorem rstripL_append_spaces (l sp : List Char) (h : ∀ c ∈ sp, isSpace c = true) :
+    rstripL (l ++ sp) = rstripL l := by
+  induction l with
+  | nil => simp [rstripL_spaces sp h, rstripL]
+  | cons c cs ih => simp only [List.cons_append, rstripL, ih]
+
+theorem rstripL_nospace (l : List Char) (h : ∀ c ∈ l, isSpace c = false) : rstripL l = l := by
+  induction l with
+  | nil => rfl
+  | cons c cs ih =>
+    simp only [rstripL, ih (fun c hc => h c (List.mem_cons_of_mem _ hc))]
+    cases cs with
+    | nil => simp [h c (List.mem_cons_self ..)]
+    | cons d ds => rfl
+
+/-! ## `splitBarL` / `joinBarL` -/
+
+theorem splitBarL_ne_nil (l : List Char) : splitBarL l ≠ [] := by
+  induction l with
+  | nil => simp [splitBarL]
+  | cons c cs ih =>
+    unfold splitBarL
+    split
+    · simp
+    · split <;> simp
+
+theorem splitBarL_nobar (t : List Char) (h : ∀ c ∈ t, c ≠ '|') : splitBarL t = [t] := by
+  induction t with
+  | nil => rfl
+  | cons c cs ih =>
+    unfold splitBarL
+    rw [if_neg (h c (List.mem_cons_self ..)), ih (fun c hc => h c (List.mem_cons_of_mem _ hc))]
+
+theorem splitBarL_append_bar (t rest : List Char) (h : ∀ c ∈ t, c ≠ '|') :
+    splitBarL (t ++ '|' :: rest) = t :: splitBarL rest := by
+  induction t with
+  | nil => simp [splitBarL]
+  | cons c cs ih =>
+    rw [List.cons_append, splitBarL, if_neg (h c (List.mem_cons_self ..)), ih (fun c hc => h c (List.mem_cons_of_mem _ hc))]
+
+theorem splitBarL_joinBarL (ts : List (List Char)) (hne : ts ≠ [])
+    (h : ∀ t ∈ ts, ∀ c ∈ t, c ≠ '|') : splitBarL (joinBarL ts) = ts := by
+  induction ts with
+  | nil => exact absurd rfl hne
+  | cons t ts ih =>
+    cases ts with
+    | nil => exact splitBarL_nobar t (h t (List.mem_cons_self ..))
+    | cons t' ts =>
+      rw [joinBarL, splitBarL_append_bar _ _ (h t (List.mem_cons_self ..)),
+        ih (by simp) (fun t ht => h t (List.mem_cons_of_mem _ ht))]
+      simp
+
+theorem joinBarL_mem (ts : List (List Char)) (c : Char) (hc : c ∈ joinBarL ts) :
+    c = '|' ∨ ∃ t ∈ ts, c ∈ t := by
+  induction ts with
+  | nil => simp [joinBarL] at hc
+  | cons t ts ih =>
+    cases ts with
+    | nil => right; exact ⟨t, List.mem_cons_self .., hc⟩
+    | cons t' ts =>
+      rw [joinBarL] at hc
+      simp only [List.mem_append, List.mem_cons] at hc
+      rcases hc with hc | hc | hc
+      · right; exact ⟨t, List.mem_cons_self .., hc⟩
+      · left; exact hc
+      · rcases ih hc with h | ⟨u, hu, hcu⟩
+        · left; exact h
+        · right; exact ⟨u, List.mem_cons_of_mem _ hu, hcu⟩
+      · simp
+
+/-! ## string level -/
+
+theorem rstrip_nospace (t : String) (h : ∀ c ∈ t.toList, isSpace c = false) : rstrip t = t := by
+  unfold rstrip
+  rw [rstripL_nospace _ h, String.ofList_toList]
+
+theorem splitBar_joinBar (ts : List String) (hne : ts ≠ [])
+    (h : ∀ t ∈ ts, ∀ c ∈ t.toList, c ≠ '|') : splitBar (joinBar ts) = ts := by
+  unfold splitBar joinBar
+  rw [String.toList_ofList, splitBarL_joinBarL]
+  · simp [List.map_map]
+  · simpa using hne
+  · intro t ht
+    simp only [List.mem_map] at ht
+    obtain ⟨s, hs, rfl⟩ := ht
+    exact h s hs
+
+theorem rstrip_joinBar_append (ts : List String) (term : String)
+    (hterm : ∀ c ∈ term.toList, isSpace c = true)
+    (h : ∀ t ∈ ts, ∀ c ∈ t.toList, isSpace c = false) :
+    rstrip (joinBar ts ++ term) = joinBar ts := by
+  unfold rstrip joinBar
+  rw [String.toList_append, String.toList_ofList, rstripL_append_spaces _ _ hterm, rstripL_nospace]
+  intro c hc
+  rcases joinBarL_mem _ c hc with rfl | ⟨t, ht, hct⟩
+  · decide
+  · simp only [List.mem_map] at ht
+    obtain ⟨s, hs, rfl⟩ := ht
+    exact h s hs c hct
+
+theorem parseRequest_joinBar (id m : String) (toks : List String) (term : String)
+    (hterm : ∀ c ∈ term.toList, isSpace c = true)
+    (h : ∀ t ∈ id :: m :: toks, t ≠ "" ∧ ∀ c ∈ t.toList, c ≠ '|' ∧ isSpace c = false) :
+    parseRequest (joinBar (id :: m :: toks) ++ term) = some (id, m, toks) := by
+  unfold parseRequest
+  rw [rstrip_joinBar_append _ _ hterm (fun t ht c hc => ((h t ht).2 c hc).2),
+    splitBar_joinBar _ (by simp) (fun t ht c hc => ((h t ht).2 c hc).1)]
+  have hf : (id :: m :: toks).filter (fun t => rstrip t != "") = id :: m :: toks := by
+    rw [List.filter_eq_self]
+    intro t ht
+    rw [rstrip_nospace t (fun c hc => ((h t ht).2 c hc).2)]
+    simpa using (h t ht).1
+  simp only [hf]
+
+/-! ## clean characters -/
+
+theorem tokenChar_clean (c : Char) (h : tokenChar c = true) : c ≠ '|' ∧ isSpace c = false := by
+  constructor
+  · intro e; subst e; revert h; decide
+  · unfold tokenChar at h
+    unfold isSpace
+    simp only [Bool.or_eq_true, Bool.and_eq_true, decide_eq_true_eq, beq_iff_eq] at h
+    simp only [Bool.or_eq_false_iff, Bool.and_eq_false_iff, decide_eq_false_iff_not]
+    omega
+
+theorem isDigit_clean (c : Char) (h : c.isDigit = true) : c ≠ '|' ∧ isSpace c = false := by
+  constructor
+  · intro e; subst e; revert h; decide
+  · unfold Char.isDigit at h
+    unfold isSpace
+    simp only [Bool.and_eq_true, decide_eq_true_eq] at h
+    have h1 : 48 ≤ c.toNat := by
+      have := h.1; rw [ge_iff_le, UInt32.le_iff_toNat_le] at this; simpa using this
+    simp only [Bool.or_eq_false_iff, Bool.and_eq_false_iff, decide_eq_false_iff_not]
+    have h2 : c.toNat ≤ 57 := by
+      have := h.2; rw [UInt32.le_iff_toNat_le] at this; simpa using this
+    omega
+
+
+/-! ## decimal round trip -/
+
+theorem digitsVal?_go_digits (l : List Char) (acc : Nat) (h : ∀ c ∈ l, c.isDigit = true) :
+    digitsVal?.go acc l = some (Nat.ofDigitChars 10 l acc) := by
+  induction l generalizing acc with
+  | nil => simp [digitsVal?.go, Nat.ofDigitChars_nil]
+  | cons d rest ih =>
+    have hd := h d (List.mem_cons_self ..)
+    have hne : d ≠ '_' := by intro e; subst e; revert hd; decide
+    unfold digitsVal?.go
+    split
+    · rename_i heq; simp at heq
+    · rename_i heq; simp at heq; exact absurd heq.1 hne
+    · rename_i d' rest' _ heq
+      simp only [List.cons.injEq] at heq
+      obtain ⟨rfl, rfl⟩ := heq
+      rw [if_pos hd, ih _ (fun c hc => h c (List.mem_cons_of_mem _ hc)), Nat.ofDigitChars_cons]
+      congr 2
+      simp [Nat.mul_comm]
+
+theorem digitsVal?_digits (l : List Char) (hne : l ≠ []) (h : ∀ c ∈ l, c.isDigit = true) :
+    digitsVal? l = some (Nat.ofDigitChars 10 l 0) := by
+  cases l with
+  | nil => exact absurd rfl hne
+  | cons c cs =>
+    rw [digitsVal?, if_pos (h c (List.mem_cons_self ..)), digitsVal?_go_digits _ _ (fun c hc => h c (List.mem_cons_of_mem _ hc)),
+      Nat.ofDigitChars_cons]
+    simp
+
+theorem digitsVal?_toDigits (n : Nat) : digitsVal? (Nat.toDigits 10 n) = some n := by
+  rw [digitsVal?_digits _ Nat.toDigits_ne_nil
+    (fun c hc => Nat.isDigit_of_mem_toDigits (by decide) (by decide) hc), Nat.ofDigitChars_ten_toDigits]
+
+
+theorem pyStrInt_toList (i : Int) : (pyStrInt i).toList =
+    if 0 ≤ i then Nat.toDigits 10 i.toNat else '-' :: Nat.toDigits 10 (-i).toNat := by
+  unfold pyStrInt
+  rw [Int.toString_eq_repr, Int.repr_eq_if]
+  split <;> simp [Nat.toList_repr, String.toList_append]
+
+theorem lstripL_head (c : Char) (cs : List Char) (h : isSpace c = false) :
+    lstripL (c :: cs) = c :: cs := by
+  simp [lstripL, h]
+
+theorem toDigits_isDigit (n : Nat) : ∀ c ∈ Nat.toDigits 10 n, c.isDigit = true :=
+  fun _ hc => Nat.isDigit_of_mem_toDigits (by decide) (by decide) hc
+
+/-- `int(str(i)) == i`. -/
+theorem pyInt?_pyStrInt (i : Int) : pyInt? (pyStrInt i) = some i := by
+  unfold pyInt?
+  rw [pyStrInt_toList]
+  by_cases h : 0 ≤ i
+  · rw [if_pos h]
+    have hd := toDigits_isDigit i.toNat
+    have hv := digitsVal?_toDigits i.toNat
+    generalize Nat.toDigits 10 i.toNat = ds at hd hv
+    cases ds with
+    | nil => simp [digitsVal?] at hv
+    | cons d rest =>
+      have hd0 := hd d (List.mem_cons_self ..)
+      rw [rstripL_nospace _ (fun c hc => (isDigit_clean c (hd c hc)).2),
+        lstripL_head _ _ (isDigit_clean d hd0).2]
+      split
+      · rename_i heq; simp only [List.cons.injEq] at heq; rw [heq.1] at hd0; exact absurd hd0 (by decide)
+      · rename_i heq; simp only [List.cons.injEq] at heq; rw [heq.1] at hd0; exact absurd hd0 (by decide)
+      · rw [hv]; simp; omega
+  · rw [if_neg h]
+    have hd := toDigits_isDigit (-i).toNat
+    have hv := digitsVal?_toDigits (-i).toNat
+    generalize Nat.toDigits 10 (-i).toNat = ds at hd hv
+    have hclean : ∀ c ∈ '-' :: ds, isSpace c = false := by
+      intro c hc
+      rcases List.mem_cons.mp hc with rfl | hc
+      · decide
+      · exact (isDigit_clean c (hd c hc)).2
+    rw [rstripL_nospace _ hclean, lstripL_head _ _ (by decide)]
+    simp only [hv, Option.map_some, Option.some.injEq, Int.ofNat_eq_natCast]
+    omega
+
+theorem pyStrInt_clean (i : Int) :
+    pyStrInt i ≠ "" ∧ ∀ c ∈ (pyStrInt i).toList, c ≠ '|' ∧ isSpace c = false := by
+  constructor
+  · intro e
+    have := congrArg String.toList e
+    rw [pyStrInt_toList] at this
+    split at this
+    · simp at this
+    · simp at this
+  · rw [pyStrInt_toList]
+    intro c hc
+    split at hc
+    · exact isDigit_clean c (toDigits_isDigit _ c hc)
+    · rcases List.mem_cons.mp hc with rfl | hc
+      · decide
+      · exact isDigit_clean c (toDigits_isDigit _ c hc)
+
+/-! ## encoder tokens are clean -/
+
+/-- the property of a wire token the tokeniser relies on. -/
+def Clean (t : String) : Prop := t ≠ "" ∧ ∀ c ∈ t.toList, c ≠ '|' ∧ isSpace c = false
+
+theorem encodeString_clean (v : Option String) : Clean (encodeString v) := by
+  match v with
+  | none => simp [encodeString, Clean]; decide
+  | some s =>
+    by_cases h : s = ""
+    · subst h; simp [encodeString, Clean]; decide
+    · obtain ⟨h1, h2⟩ := c05_charset s h
+      refine ⟨fun e => h1 (by rw [e]; rfl), fun c hc => tokenChar_clean c (h2 c hc)⟩
+
+theorem marker_clean (ty : Ty) : Clean (String.singleton ty.marker) := by
+  cases ty <;> simp [Clean, Ty.marker] <;> decide
+
+theorem encVal_clean (ty : Ty) (v : Val) (t : String) (h : Spec.encVal ty v = some t) : Clean t := by
+  cases ty <;> cases v <;> simp only [Spec.encVal, Option.some.injEq, reduceCtorEq] at h
+  · subst h; exact encodeString_clean _
+  · subst h; exact pyStrInt_clean _
+  · rename_i m
+    cases m with
+    | none => simp at h; subst h; simp [Clean]; decide
+    | some m => simp at h; subst h; cases m <;> simp [Clean, Mode.code] <;> decide
+  · rename_i p
+    match p with
+    | none => simp at h; subst h; simp [Clean]; decide
+    | some .empty => simp at h; subst h; simp [Clean]; decide
+    | some .apple => simp at h; subst h; simp [Clean]; decide
+    | some .google => simp at h; subst h; simp [Clean]; decide
+
+
+theorem encField_eq (ty : Ty) (v : Val) (a : List String) (h : Spec.encField ty v = some a) :
+    ∃ t, Spec.encVal ty v = some t ∧ a = [String.singleton ty.marker, t] := by
+  unfold Spec.encField at h
+  cases hv : Spec.encVal ty v with
+  | none => simp [hv] at h
+  | some t => simp [hv] at h; exact ⟨t, rfl, h.symm⟩
+
+theorem encField_clean (ty : Ty) (v : Val) (a : List String) (h : Spec.encField ty v = some a) :
+    ∀ t ∈ a, Clean t := by
+  obtain ⟨t, hv, rfl⟩ := encField_eq ty v a h
+  intro u hu
+  simp only [List.mem_cons, List.not_mem_nil, or_false] at hu
+  rcases hu with rfl | rfl
+  · exact marker_clean ty
+  · exact encVal_clean ty v _ hv
+
+theorem encFields_clean (tys : List Ty) (vs : List Val) (enc : List String)
+    (h : Spec.encFields tys vs = some enc) : ∀ t ∈ enc, Clean t := by
+  induction tys generalizing vs enc with
+  | nil =>
+    cases vs with
+    | nil => simp [Spec.encFields] at h; subst h; simp
+    | cons v vs => simp [Spec.encFields] at h
+  | cons ty tys ih =>
+    cases vs with
+    | nil => simp [Spec.encFields] at h
+    | cons v vs =>
+      simp only [Spec.encFields, Option.bind_eq_bind, Option.bind_eq_some_iff, Option.some.injEq] at h
+      obtain ⟨a, ha, b, hb, rfl⟩ := h
+      intro t ht
+      rcases List.mem_append.mp ht with ht | ht
+      · exact encField_clean ty v a ha t ht
+      · exact ih vs b hb t ht
+
+theorem encPairs_clean (kvs : List (Val × Val)) (enc : List String)
+    (h : Spec.encPairs kvs = some enc) : ∀ t ∈ enc, Clean t := by
+  induction kvs generalizing enc with
+  | nil => simp [Spec.encPairs] at h; subst h; simp
+  | cons kv rest ih =>
+    obtain ⟨k, v⟩ := kv
+    simp only [Spec.encPairs, Option.bind_eq_bind, Option.bind_eq_some_iff, Option.some.injEq] at h
+    obtain ⟨a, ha, b, hb, c, hc, rfl⟩ := h
+    intro t ht
+    simp only [List.mem_append] at ht
+    rcases ht with (ht | ht) | ht
+    · exact encField_clean _ _ a ha t ht
+    · exact encField_clean _ _ b hb t ht
+    · exact ih c hc t ht
+
+theorem encSeq_clean (xs : List Val) (enc : List String)
+    (h : Spec.encSeq xs = some enc) : ∀ t ∈ enc, Clean t := by
+  induction xs generalizing enc with
+  | nil => simp [Spec.encSeq] at h; subst h; simp
+  | cons v rest ih =>
+    simp only [Spec.encSeq, Option.bind_eq_bind, Option.bind_eq_some_iff, Option.some.injEq] at h
+    obtain ⟨a, ha, c, hc, rfl⟩ := h
+    intro t ht
+    rcases List.mem_append.mp ht with ht | ht
+    · exact encField_clean _ _ a ha t ht
+    · exact ih c hc t ht
+
+theorem encTables_clean (ts : List (List Val)) (enc : List String)
+    (h : Spec.encTables ts = some enc) : ∀ t ∈ enc, Clean t := by
+  induction ts generalizing enc with
+  | nil => simp [Spec.encTables] at h; subst h; simp
+  | cons row rest ih =>
+    simp only [Spec.encTables, Option.bind_eq_bind, Option.bind_eq_some_iff, Option.some.injEq] at h
+    obtain ⟨a, ha, c, hc, rfl⟩ := h
+    intro t ht
+    rcases List.mem_append.mp ht with ht | ht
+    · exact encFields_clean _ _ a ha t ht
+    · exact ih c hc t ht
+
+theorem encTail_clean (tl : Tail) (tv : TailVal) (enc : List String)
+    (h : Spec.encTail tl tv = some enc) : ∀ t ∈ enc, Clean t := by
+  cases tl <;> cases tv <;> simp only [Spec.encTail, reduceCtorEq, Option.some.injEq] at h
+  · subst h; simp
+  · exact encPairs_clean _ _ h
+  · exact encSeq_clean _ _ h
+  · exact encTables_clean _ _ h
+
+theorem encodeArgs_eq (σ : Schema) (a : Args) (toks : List String)
+    (h : Spec.encodeArgs σ a = some toks) :
+    ∃ f t, Spec.encFields σ.fixed a.fixed = some f ∧ Spec.encTail σ.tail a.tail = some t ∧
+      toks = f ++ t := by
+  simp only [Spec.encodeArgs, Option.bind_eq_bind, Option.bind_eq_some_iff, Option.some.injEq] at h
+  obtain ⟨f, hf, t, ht, rfl⟩ := h
+  exact ⟨f, t, hf, ht, rfl⟩
+
+theorem encodeArgs_clean (σ : Schema) (a : Args) (toks : List String)
+    (h : Spec.encodeArgs σ a = some toks) : ∀ t ∈ toks, Clean t := by
+  obtain ⟨f, t, hf, ht, rfl⟩ := encodeArgs_eq σ a toks h
+  intro u hu
+  rcases List.mem_append.mp hu with hu | hu
+  · exact encFields_clean _ _ f hf u hu
+  · exact encTail_clean _ _ t ht u hu
+
+/-! ## decoding inverts encoding -/
+
+theorem decodeModes_code (m : Mode) : decodeModes (String.singleton m.code) = .ok (some m) := by
+  cases m <;> decide
+
+theorem read_encVal (toks : List String) (i : Nat) (ty : Ty) (v : Val) (t : String)
+    (h0 : toks[i]? = some (String.singleton ty.marker)) (h1 : toks[i + 1]? = some t)
+    (h : Spec.encVal ty v = some t) : read toks ty.marker i = .ok v := by
+  unfold read readToken
+  simp only [h0, h1, R.bind_ok, if_true]
+  cases ty <;> cases v <;> simp only [Spec.encVal, Option.some.injEq, reduceCtorEq] at h
+  · subst h; simp [Ty.marker, c05_roundtrip]
+  · subst h; simp [Ty.marker, pyInt?_pyStrInt]
+  · rename_i m
+    cases m with
+    | none => simp at h; subst h; simp [Ty.marker]; decide
+    | some m => simp at h; subst h; simp [Ty.marker, decodeModes_code, Except.map]
+  · rename_i p
+    match p with
+    | none => simp at h; subst h; simp [Ty.marker]; decide
+    | some .empty => simp at h; subst h; simp [Ty.marker]; decide
+    | some .apple => simp at h; subst h; simp [Ty.marker]; decide
+    | some .google => simp at h; subst h; simp [Ty.marker]; decide
+
+theorem read_encField (pre post a : List String) (ty : Ty) (v : Val)
+    (h : Spec.encField ty v = some a) :
+    read (pre ++ a ++ post) ty.marker pre.length = .ok v := by
+  obtain ⟨t, hv, rfl⟩ := encField_eq ty v a h
+  apply read_encVal _ _ _ _ t _ _ hv
+  · simp
+  · simp
+
+theorem encFields_length (tys : List Ty) (vs : List Val) (enc : List String)
+    (h : Spec.encFields tys vs = some enc) : enc.length = 2 * tys.length := by
+  induction tys generalizing vs enc with
+  | nil =>
+    cases vs with
+    | nil => simp [Spec.encFields] at h; subst h; simp
+    | cons v vs => simp [Spec.encFields] at h
+  | cons ty tys ih =>
+    cases vs with
+    | nil => simp [Spec.encFields] at h
+    | cons v vs =>
+      simp only [Spec.encFields, Option.bind_eq_bind, Option.bind_eq_some_iff, Option.some.injEq] at h
+      obtain ⟨a, ha, b, hb, rfl⟩ := h
+      obtain ⟨t, _, rfl⟩ := encField_eq ty v a ha
+      have := ih vs b hb
+      simp only [List.length_append, List.length_cons, List.length_nil, this]
+      omega
+
+theorem decodeFixed_encFields (pre post : List String) (tys : List Ty) (vs : List Val)
+    (enc : List String) (h : Spec.encFields tys vs = some enc) :
+    decodeFixed (pre ++ enc ++ post) tys pre.length = .ok vs := by
+  induction tys generalizing vs enc pre with
+  | nil =>
+    cases vs with
+    | nil => rfl
+    | cons v vs => simp [Spec.encFields] at h
+  | cons ty tys ih =>
+    cases vs with
+    | nil => simp [Spec.encFields] at h
+    | cons v vs =>
+      simp only [Spec.encFields, Option.bind_eq_bind, Option.bind_eq_some_iff, Option.some.injEq] at h
+      obtain ⟨a, ha, b, hb, rfl⟩ := h
+      unfold decodeFixed
+      have h1 : read (pre ++ (a ++ b) ++ post) ty.marker pre.length = .ok v := by
+        have := read_encField pre (b ++ post) a ty v ha
+        simpa [List.append_assoc] using this
+      have h2 : decodeFixed (pre ++ (a ++ b) ++ post) tys (pre.length + 2) = .ok vs := by
+        obtain ⟨t, _, rfl⟩ := encField_eq ty v a ha
+        have := ih (pre ++ [String.singleton ty.marker, t]) vs b hb
+        simpa [List.append_assoc] using this
+      rw [h1, h2]; rfl
+
+
+theorem readPairs_encPairs (kvs : List (Val × Val)) (enc : List String)
+    (h : Spec.encPairs kvs = some enc) : readPairs enc = .ok kvs ∧ enc.length % 2 = 0 := by
+  induction kvs generalizing enc with
+  | nil => simp [Spec.encPairs] at h; subst h; exact ⟨rfl, rfl⟩
+  | cons kv rest ih =>
+    obtain ⟨k, v⟩ := kv
+    simp only [Spec.encPairs, Option.bind_eq_bind, Option.bind_eq_some_iff, Option.some.injEq] at h
+    obtain ⟨a, ha, b, hb, c, hc, rfl⟩ := h
+    have hk : read (a ++ b ++ c) 'S' 0 = .ok k := by
+      simpa [Ty.marker] using read_encField [] (b ++ c) a .S k ha
+    have hv : read (a ++ b ++ c) 'S' a.length = .ok v := by
+      simpa [Ty.marker] using read_encField a c b .S v hb
+    obtain ⟨tk, _, rfl⟩ := encField_eq _ _ a ha
+    obtain ⟨tv, _, rfl⟩ := encField_eq _ _ b hb
+    obtain ⟨ih1, ih2⟩ := ih c hc
+    simp only [List.cons_append, List.nil_append, List.length_cons, List.length_nil] at hk hv ⊢
+    refine ⟨?_, by omega⟩
+    rw [readPairs, hk, hv, ih1]; rfl
+
+theorem readSeqL_encSeq (xs : List Val) (enc : List String)
+    (h : Spec.encSeq xs = some enc) : readSeqL enc = .ok xs := by
+  induction xs generalizing enc with
+  | nil => simp [Spec.encSeq] at h; subst h; rfl
+  | cons v rest ih =>
+    simp only [Spec.encSeq, Option.bind_eq_bind, Option.bind_eq_some_iff, Option.some.injEq] at h
+    obtain ⟨a, ha, c, hc, rfl⟩ := h
+    have hk : read (a ++ c) 'S' 0 = .ok v := by
+      simpa [Ty.marker] using read_encField [] c a .S v ha
+    obtain ⟨tk, _, rfl⟩ := encField_eq _ _ a ha
+    simp only [List.cons_append, List.nil_append] at hk ⊢
+    rw [readSeqL, hk, ih c hc]; rfl
+
+theorem decodeTables_encTables (ts : List (List Val)) (enc : List String) (fuel : Nat)
+    (h : Spec.encTables ts = some enc) (hfuel : ts.length ≤ fuel) :
+    decodeTables fuel enc = .ok ts ∧ enc.length = 14 * ts.length := by
+  induction ts generalizing enc fuel with
+  | nil => simp [Spec.encTables] at h; subst h; exact ⟨by unfold decodeTables; rfl, rfl⟩
+  | cons row rest ih =>
+    simp only [Spec.encTables, Option.bind_eq_bind, Option.bind_eq_some_iff, Option.some.injEq] at h
+    obtain ⟨a, ha, c, hc, rfl⟩ := h
+    have hlen : a.length = 14 := by rw [encFields_length _ _ _ ha]; rfl
+    cases fuel with
+    | zero => simp at hfuel
+    | succ fuel =>
+      obtain ⟨ih1, ih2⟩ := ih c fuel hc (by simpa using hfuel)
+      refine ⟨?_, by simp only [List.length_append, List.length_cons, hlen, ih2]; omega⟩
+      have hrow : decodeFixed a tableTys 0 = .ok row := by
+        simpa using decodeFixed_encFields [] [] tableTys row a ha
+      cases a with
+      | nil => simp at hlen
+      | cons x a' =>
+        rw [List.cons_append, decodeTables]
+        · have e1 : List.take 14 (x :: (a' ++ c)) = x :: a' := by
+            rw [← List.cons_append, List.take_left' hlen]
+          have e2 : List.drop 14 (x :: (a' ++ c)) = c := by
+            rw [← List.cons_append, List.drop_left' hlen]
+          rw [e1, e2, hrow, ih1]; rfl
+        · simp
+
+
+theorem decodeWith_encodeArgs (σ : Schema) (a : Args) (toks : List String)
+    (h : Spec.encodeArgs σ a = some toks) : decodeWith σ toks = .ok a := by
+  obtain ⟨f, t, hf, ht, rfl⟩ := encodeArgs_eq σ a toks h
+  have hfl := encFields_length _ _ _ hf
+  have h1 : decodeFixed (f ++ t) σ.fixed 0 = .ok a.fixed := by
+    simpa using decodeFixed_encFields [] t _ _ f hf
+  have hdrop : (f ++ t).drop (2 * σ.fixed.length) = t := by rw [← hfl]; simp
+  obtain ⟨m, fx, tl⟩ := σ
+  obtain ⟨afx, atl⟩ := a
+  unfold decodeWith
+  simp only at h1 hdrop ht ⊢
+  rw [h1]
+  cases tl <;> cases atl <;> simp only [Spec.encTail, reduceCtorEq, Option.some.injEq] at ht
+  · rfl
+  · rename_i kvs
+    obtain ⟨h2, h3⟩ := readPairs_encPairs _ _ ht
+    have : readMap (f ++ t) (2 * fx.length) = .ok kvs := by
+      unfold readMap
+      simp only [hdrop]
+      rw [if_neg (by omega), h2]
+    simp only [this]; rfl
+  · rename_i xs
+    have : readSeq (f ++ t) (2 * fx.length) = .ok xs := by
+      unfold readSeq
+      rw [hdrop, readSeqL_encSeq _ _ ht]
+    simp only [this]; rfl
+  · obtain ⟨h2, h3⟩ := decodeTables_encTables _ t (f ++ t).length ht
+      (by have := (decodeTables_encTables _ t _ ht (Nat.le_refl _)).2; simp only [List.length_append]; omega)
+    simp only [hdrop, h2]; rfl
 
 end Ari
